@@ -5,6 +5,7 @@ import NA.Proofs.C03Groups
 import NA.Proofs.C03Marks
 import NA.Model.PanOsOld
 import NA.Proofs.C03Device
+import NA.Proofs.C03GrpConv
 /-!
 # C03 — PAN-OS approve converges to the Netspoc-equivalent rulebase
 (with the PAN-OS theorems of C07, C08, C10; names prefixed `pan_`)
@@ -711,6 +712,96 @@ theorem panos_equiv_implies_equivSem (dev tgt : Vsys) (h : equiv dev tgt = true)
 
 example : equiv plainTgt plainTgt = true := by decide
 
+/-! ### Round 3c: whole-vsys theorems WITH address-groups (fragment `GrpPair`)
+
+`GrpPair sh a b` (decidable, `NA/Model/PanOsGrpPair.lean`) is the shape Netspoc generates: a source /
+destination list holds addresses only or exactly one address-group; groups hold addresses of their
+vsys (no nesting); no service-groups; group names — the device's, the target's, the generated ones —
+are no address names, not reserved, not shared; everything the rules name resolves.  It contains
+`PlainPair` up to the side conditions on empty lists.  Groups may be shared between rules, renamed,
+renumbered, changed in place, claimed for another target group, or transferred under a fresh name.
+Excluded: lists mixing a group with other members (F-C03e), service-groups (F-C03a), nested groups
+(F-C03n).  The differ must also return the identity script for two sides that are equal position by
+position (`IdentityDiffer`, checked for the real `myers.Diff` on every such call). -/
+
+/-- **`panos_vsys_converges` with address-groups.**  The strict device accepts every request of
+the plan — transfers (groups under fresh names included), group-member requests interleaved with
+rule requests, removals — and the vsys it reaches has the target's rules in the target's order,
+each equivalent by expanded content. -/
+theorem panos_vsys_converges_groups_partial (sh : Shared) (diff : Differ) (hd : GoodDiffer diff)
+    (hid : IdentityDiffer diff) (a b : Vsys) (hP : GrpPair sh a b) :
+    ∃ w, execAll sh a (planVsys diff a b) = (w, (planVsys diff a b).length, none) ∧ equiv w b = true ∧
+      w.name = a.name ∧ w.rules.length = b.rules.length :=
+  grp_converges sh diff hd hid a b hP
+
+/-- **`panos_executable` (C08) with address-groups**: every prefix of the plan is accepted — no
+request names a group or address that does not exist at that moment, no group or address is
+deleted while a rule or a group still names it. -/
+theorem panos_executable_groups_partial (sh : Shared) (diff : Differ) (hd : GoodDiffer diff)
+    (hid : IdentityDiffer diff) (a b : Vsys) (hP : GrpPair sh a b) (k : Nat) :
+    (execAll sh a ((planVsys diff a b).take k)).2 = (min k (planVsys diff a b).length, none) := by
+  obtain ⟨w, h1, _⟩ := grp_converges sh diff hd hid a b hP
+  have hsplit : planVsys diff a b = (planVsys diff a b).take k ++ (planVsys diff a b).drop k :=
+    (List.take_append_drop k _).symm
+  have h1' : Runs sh a ((planVsys diff a b).take k ++ (planVsys diff a b).drop k) w := by
+    rw [← hsplit]; exact h1
+  obtain ⟨ak, h2, _⟩ := Runs.of_append _ _ _ _ h1'
+  unfold Runs at h2
+  rw [h2, List.length_take]
+
+/-- **`panos_unchanged_only_if_equivalent` with address-groups.** -/
+theorem panos_unchanged_only_if_equivalent_groups_partial (sh : Shared) (diff : Differ) (hd : GoodDiffer diff)
+    (hid : IdentityDiffer diff) (a b : Vsys) (hP : GrpPair sh a b) (h : planVsys diff a b = []) :
+    equiv a b = true := by
+  obtain ⟨w, h1, h2, _⟩ := grp_converges sh diff hd hid a b hP
+  rw [h] at h1
+  rw [runs_nil_eq h1] at h2
+  exact h2
+
+/-- **Several vsys, with address-groups.** -/
+theorem panos_device_converges_groups_partial (sh : Shared) (diff : Differ) (hd : GoodDiffer diff)
+    (hid : IdentityDiffer diff) (devA devB : String) (dev tgt : List Vsys) (l : List (String × List Cmd))
+    (hplan : planDevice diff devA devB dev tgt = .ok l) (hnd : (dev.map (·.name)).Nodup)
+    (hP : ∀ v1 ∈ dev, ∀ v2, vsysMap tgt v1.name = some v2 → GrpPair sh v1 v2) :
+    ∃ d', execDevAll sh dev l = .ok d' ∧ d'.length = dev.length ∧
+      ∀ (i : Nat) (v1 : Vsys), dev[i]? = some v1 →
+        (vsysMap tgt v1.name = none → d'[i]? = some v1) ∧
+        (∀ v2, vsysMap tgt v1.name = some v2 → ∃ w, d'[i]? = some w ∧ equiv w v2 = true) := by
+  obtain ⟨d', e1, e2, e3⟩ := execDevAll_planDevice sh diff devA devB dev tgt l hplan hnd
+    (fun v1 hv1 v2 hv2 => by
+      obtain ⟨w, hw, _⟩ := grp_converges sh diff hd hid v1 v2 (hP v1 hv1 v2 hv2)
+      exact ⟨w, hw⟩)
+  refine ⟨d', e1, e2, fun i v1 hi => ⟨(e3 i v1 hi).1, fun v2 hv2 => ?_⟩⟩
+  obtain ⟨w, hw1, hw2⟩ := (e3 i v1 hi).2 v2 hv2
+  obtain ⟨w', hw', heq, _⟩ := grp_converges sh diff hd hid v1 v2 (hP v1 (List.mem_of_getElem? hi) v2 hv2)
+  have : w = w' := by
+    unfold Runs at hw2 hw'
+    rw [hw2] at hw'
+    exact (Prod.mk.inj hw').1
+  subst this
+  exact ⟨w, hw1, heq⟩
+
+/-- device: r1 uses group g1 (three addresses), r2 and r3 share g3; the target renumbers: r1 and r2
+now use g3 with another content, r3 uses a new group g2 with the old content of g3 -/
+def grpDev : Vsys :=
+  mkVsys [mkRule "r1" ["g1"] "s1", mkRule "r2" ["g3"] "s1", mkRule "r3" ["g3"] "s1"]
+    ["a1", "a2", "a3", "a4", "a5"] [mkGrp "g1" ["a1", "a2", "a5"], mkGrp "g3" ["a3"]] ["s1"]
+def grpTgt : Vsys :=
+  mkVsys [mkRule "r1" ["g3"] "s1", mkRule "r2" ["g3"] "s1", mkRule "r3" ["g2"] "s1"]
+    ["a3", "a4"] [mkGrp "g3" ["a3", "a4"], mkGrp "g2" ["a3"]] ["s1"]
+
+example : GrpPair ["shared-1"] grpDev grpTgt := by decide
+/-- the plan of that pair: a group transferred under a fresh name (r1, r2 pointed to it), a device
+group claimed for a target group of another name without a request (r3), a device group and its
+addresses removed; accepted by the strict device; equivalent -/
+example : planVsys stdDiff grpDev grpTgt =
+    [.setGrp "g3-1" ["a3", "a4"], .editList "r1" .src ["g3-1"], .editList "r2" .src ["g3-1"],
+     .delGrp "g1", .delAddr "a1", .delAddr "a2", .delAddr "a5"] := by
+  set_option maxRecDepth 8192 in decide
+example : (execAll ["shared-1"] grpDev (planVsys stdDiff grpDev grpTgt)).2 = (7, none) ∧
+    equiv (execAll ["shared-1"] grpDev (planVsys stdDiff grpDev grpTgt)).1 grpTgt = true := by
+  set_option maxRecDepth 8192 in decide
+
 /-- the per-pair hypothesis of `panos_device_converges_partial` on that device -/
 example : ∀ v1 ∈ [plainDev, { plainDev with name := "w" }], ∀ v2,
     vsysMap [plainTgt] v1.name = some v2 → PlainPair [] v1 v2 := by
@@ -738,6 +829,8 @@ def obligations : List Lean.Name := [
   ``panos_vsys_converges_partial, ``panos_executable_partial, ``panos_unchanged_only_if_equivalent_partial,
   ``panos_idempotent_partial, ``panos_settled_plan_empty_partial, ``panos_resume_partial,
   ``panos_outside_vsys_untouched, ``panos_device_converges_partial, ``stdDiff_good, ``stdDiff_identity,
-  ``sortStrings_canonical, ``panos_equiv_implies_equivSem]
+  ``sortStrings_canonical, ``panos_equiv_implies_equivSem,
+  ``panos_vsys_converges_groups_partial, ``panos_executable_groups_partial,
+  ``panos_unchanged_only_if_equivalent_groups_partial, ``panos_device_converges_groups_partial]
 
 end NA.PanOs
